@@ -980,6 +980,14 @@ def explore(ctx, n_pure, n_wrap, n_live, stream='c12', with_corpus=True):
                 run_input(I, f['witness'], 'witness', B, LB)
     pure_cases(I, r, n_pure, B)
     pure_cases(I, rng.make(stream + '/wrap'), n_wrap, B, kinds=('wrap',))
+    if with_corpus and n_live:
+        # the table of translations extracted from locales/*.po against what `_()` really returns
+        L = live()
+        for lang in ['en', 'de', 'fi', 'fr', 'it']:
+            T = L.set_lang(lang)
+            B.add(Case({'op': 'texts', 'lang': lang}, impl='\t'.join(wire.enc(T[k]) for k in ('sing', 'plur', 'empty', 'errp')),
+                       oracle_ok=True, kind='pure-locale', tags=('locale', 'locale:' + lang)), ['texts\t' + wire.enc(lang)])
+        L.set_lang('en')
     rl = rng.make(stream + '/live')
     for _ in range(n_live):
         LB.add(live_case(I, live(), gen_live_input(rl, ctx.thorough), 'live'))
